@@ -1164,12 +1164,15 @@ impl Monitor {
                     }
                 }
             }
+            let now_keys: BTreeSet<String> = doomed.iter().map(|(t, slot, what)| format!("doomed:{t}:{slot}:{what}")).collect();
+            let old_keys: BTreeSet<String> = self.s.bad_now.iter().filter(|k| k.starts_with("doomed:")).cloned().collect();
+            self.s.bad_now.retain(|k| !k.starts_with("doomed:"));
+            self.s.bad_now.extend(now_keys.iter().cloned());
             for (t, slot, what) in doomed {
                 let key = format!("doomed:{t}:{slot}:{what}");
-                if self.s.bad_now.contains(&key) {
+                if old_keys.contains(&key) {
                     continue;
                 }
-                self.s.bad_now.insert(key);
                 let st = self.status(t);
                 let d = format!(
                     "task {t} is {st:?} but worker slot {slot} has a {what} of it and no CancelTasks naming it is on its way"
@@ -1219,7 +1222,7 @@ impl Monitor {
 
         // ---- quiescent-state predicates ----
         if sys.is_quiescent() {
-            if self.on(Prop::C02) {
+            if self.on(Prop::C02) || self.on(Prop::C01) {
                 self.check_quiescent_progress(sys, post);
             }
             if self.on(Prop::C01) {
@@ -1495,7 +1498,11 @@ impl Monitor {
                 }
             }
         }
-            self.s.bad_now = seen;
+            // replace only the keys this function owns
+        self.s
+            .bad_now
+            .retain(|k| k.starts_with("doomed:") || k.starts_with("crash:"));
+        self.s.bad_now.extend(seen);
     }
 
     fn check_worker_resources(&mut self, sys: &System, post: &KeyParts) {
@@ -1554,6 +1561,44 @@ impl Monitor {
                                 "allocation",
                                 format!("task {} resource {rid}: amount {amount} but indices sum to {total}", r.id),
                             );
+                        }
+                    }
+                }
+            }
+            // the resource values a task is told about are the ones it holds
+            {
+                let names = &post.core.resource_names;
+                let l = sys.launcher.borrow();
+                for e in l.execs.iter() {
+                    if e.slot as usize != si || !matches!(e.state, ExecState::Running | ExecState::Stopping | ExecState::Flushing) {
+                        continue;
+                    }
+                    for (rid, _amount, idxs) in &e.allocation {
+                        if idxs.is_empty() {
+                            continue;
+                        }
+                        let Some(name) = names.get(*rid as usize) else { continue };
+                        // scenario descriptors label index i with "i"
+                        let expected = idxs.iter().map(|(i, _, _)| i.to_string()).collect::<Vec<_>>().join(",");
+                        let var: String = format!(
+                            "HQ_RESOURCE_VALUES_{}",
+                            name.chars().map(|c| if c.is_ascii_alphanumeric() { c } else { '_' }).collect::<String>()
+                        );
+                        let told = e.env.iter().find(|(k, _)| *k == var).map(|(_, v)| v.clone());
+                        if told.as_deref() != Some(expected.as_str()) {
+                            let d = format!("task {} holds indices [{expected}] of {name} but {var} = {told:?}", e.task);
+                            drop(l);
+                            self.v(Prop::C04, "told-values-differ-from-held", format!("resource-{name}"), d);
+                            return;
+                        }
+                        if name == "cpus" {
+                            let cpus = e.env.iter().find(|(k, _)| k == "HQ_CPUS").map(|(_, v)| v.clone());
+                            if cpus.as_deref() != Some(expected.as_str()) {
+                                let d = format!("task {} holds cpus [{expected}] but HQ_CPUS = {cpus:?}", e.task);
+                                drop(l);
+                                self.v(Prop::C04, "told-values-differ-from-held", "HQ_CPUS".to_string(), d);
+                                return;
+                            }
                         }
                     }
                 }
@@ -1694,24 +1739,18 @@ impl Monitor {
                         } else {
                             "ready-task-not-scheduled"
                         };
-                        self.v(
-                            Prop::C02,
-                            "runnable-task-stuck",
-                            site,
-                            format!(
-                                "system at rest, task {} is ready, capable connected workers {capable:?} (blocked on {blocked:?}, in queue: {in_queue})",
-                                t.id
-                            ),
+                        let d = format!(
+                            "system at rest, task {} is ready, capable connected workers {capable:?} (blocked on {blocked:?}, in queue: {in_queue})",
+                            t.id
                         );
+                        self.v(Prop::C02, "runnable-task-stuck", site, d.clone());
+                        self.v(Prop::C01, "task-never-ends", site, d);
                     }
                 }
                 other => {
-                    self.v(
-                        Prop::C02,
-                        "task-stuck-in-transit",
-                        format!("{}", state_name(other)),
-                        format!("system at rest (no message in flight, nothing executing) but task {} is {other:?}", t.id),
-                    );
+                    let d = format!("system at rest (no message in flight, nothing executing) but task {} is {other:?}", t.id);
+                    self.v(Prop::C02, "task-stuck-in-transit", state_name(other).to_string(), d.clone());
+                    self.v(Prop::C01, "task-never-ends", format!("stuck-{}", state_name(other)), d);
                 }
             }
         }
